@@ -487,9 +487,9 @@ def validate_json(recs, nbatch):
 
 
 # ============================================================================= TLC for part A
-def tlc_cases(maxf, sequpto, ctxupto, stride, seed):
+def tlc_cases(maxf, sequpto, ctxupto, fullupto, stride, seed):
     wd = C.scratch("c19gen")
-    cfg = (f"SPECIFICATION Spec\nCONSTANTS MaxFields = {maxf} SeqUpTo = {sequpto} CtxUpTo = {ctxupto} Stride = {stride} Seed = {seed % 1000}\n"
+    cfg = (f"SPECIFICATION Spec\nCONSTANTS MaxFields = {maxf} SeqUpTo = {sequpto} CtxUpTo = {ctxupto} FullUpTo = {fullupto} Stride = {stride} Seed = {seed % 1000}\n"
            "INVARIANT Satisfiable\nINVARIANT RoundTrip\nINVARIANT ElisionRespected\nINVARIANT Exact\nINVARIANT Emit\nCHECK_DEADLOCK FALSE\n")
     open(os.path.join(wd, "gen.cfg"), "w").write(cfg)
     res = C.run_tlc("XoSerialGen", "gen.cfg", workdir=wd, workers=1, timeout=3000, jvm=("-Xmx3g",))
@@ -523,10 +523,10 @@ def tlc_theorem(maxf, sequpto, ctxupto, workers):
 TIERS = {
     # export = (MaxFields, SeqUpTo) enumerated with Emit and replayed (all, or `sample3` of the largest size);
     # theorem = (MaxFields, SeqUpTo) checked without export
-    # export = (MaxFields, SeqUpTo, CtxUpTo, Stride): all definitions are CHECKED by TLC, those up to SeqUpTo fields and every Stride-th
-    # larger one are exported and replayed;  theorem = a larger space checked without export (None: the export run is the check)
-    "quick": dict(export=(3, 2, 1, 12), theorem=None, json_random=4000, batches=4),
-    "thorough": dict(export=(3, 2, 2, 1), theorem=(4, 2, 2), json_random=30000, batches=8),
+    # export = (MaxFields, SeqUpTo, CtxUpTo, FullUpTo, Stride): all definitions are CHECKED by TLC, those up to FullUpTo fields and every
+    # Stride-th larger one are exported and replayed;  theorem = another space checked without export (None: the export run is the check)
+    "quick": dict(export=(3, 2, 1, 2, 6), theorem=None, json_random=6000, batches=4),
+    "thorough": dict(export=(4, 2, 2, 3, 16), theorem=None, json_random=60000, batches=8),
 }
 
 
